@@ -1,3 +1,117 @@
-"""vcheck configuration of work group F: PROPS = {"Cxx": {"families": [fam("name", quick_n, thorough_n)], "defects": ["Dn"]}}"""
+"""vcheck configuration of work group F (C13, C14, C19).
 
-PROPS = {}
+PROPS = {"Cxx": {"families": [fam("name", quick_n, thorough_n)], "defects": ["Dn"], ...}}
+`fam` is injected by bin/vconfig.py.
+"""
+import os
+import re
+import subprocess
+import time
+
+GOENV = dict(os.environ, GOFLAGS="-mod=mod", GOPROXY="off", GOSUMDB="off", GOTOOLCHAIN="local")
+
+
+def c14_extra(tier, seed, harness, problems, stats, build_harness):
+    """Dynamic part of C14: the harness built with `-race -tags verif`, request multisets partitioned
+    over 2..32 goroutines on cold and warm String-/File-backed storages, yields at the four hook points.
+    Any race report (exit code 66 / "WARNING: DATA RACE") or answer different from the sequential one is
+    a violation.  Exploration, not proof."""
+    t0 = time.time()
+    fs = stats.setdefault("c14race", {"evaluations": 0, "ood": 0, "answers": {}, "distinct": set(), "nontrivial": set(),
+                                      "samples": [], "wall_s": 0.0})
+    n_before = len(problems)
+    race = build_harness(problems, race=True)
+    if not race:
+        # build_harness has appended a harness-build problem
+        if len(problems) == n_before:
+            problems.append({"kind": "race", "detail": "could not build the -race harness"})
+        return
+    rounds = 300 if tier == "quick" else 1000
+    seeds = [seed] if tier == "quick" else [seed + 1000 * k for k in range(4)]
+    for s in seeds:
+        env = dict(GOENV, GORACE="halt_on_error=0 exitcode=66")
+        try:
+            p = subprocess.run([race, "c14race", str(s), str(rounds)], capture_output=True, text=True, env=env, timeout=3000)
+        except subprocess.TimeoutExpired:
+            problems.append({"kind": "race", "detail": "race harness timed out (seed %d)" % s})
+            continue
+        out, err = p.stdout, p.stderr
+        m = re.search(r"SUMMARY rounds=(\d+) evaluations=(\d+) mismatches=(\d+) duplicates_only=(\d+) nontrivial_sequential=(\d+) yields=(\S+)", out)
+        races = err.count("WARNING: DATA RACE")
+        if races or p.returncode == 66:
+            first = err[err.find("WARNING: DATA RACE"):][:2500] if races else err[-1500:]
+            problems.append({"kind": "race", "detail": "seed %d: %d race report(s), exit code %d\n%s" % (s, races, p.returncode, first)})
+        mism = [l for l in out.splitlines() if l.startswith("MISMATCH ")]
+        if mism:
+            problems.append({"kind": "sc-mismatch", "detail": "seed %d: %s" % (s, mism[0][:2500])})
+        if not m:
+            if not races and not mism:
+                problems.append({"kind": "race", "detail": "seed %d: no summary from the race harness (exit %d): %s" % (
+                    s, p.returncode, (err or out)[-1500:])})
+            continue
+        ev, mm, dup, nt = int(m.group(2)), int(m.group(3)), int(m.group(4)), int(m.group(5))
+        fs["evaluations"] += ev
+        fs["answers"]["equal-to-sequential"] = fs["answers"].get("equal-to-sequential", 0) + ev - mm
+        if mm:
+            fs["answers"]["mismatch"] = fs["answers"].get("mismatch", 0) + mm
+        if dup:
+            fs["answers"]["equal-as-sets-only"] = fs["answers"].get("equal-as-sets-only", 0) + dup
+        for i in range(int(m.group(1))):
+            fs["distinct"].add("%d/%d" % (s, i))
+        for i in range(nt):
+            fs["nontrivial"].add("%d/%d" % (s, i))
+        sets_only = [l for l in out.splitlines() if l.startswith("SETS-ONLY ")]
+        if len(fs["samples"]) < 3:
+            fs["samples"].append({"op": "harness-race c14race %d %d" % (s, rounds), "go": m.group(0)[:300], "model": "-", "spec": "-",
+                                  "note": "yields at hook points 1/2/3/4 = %s; race reports = %d%s" % (
+                                      m.group(6), races,
+                                      ("; answers equal to the sequential ones only AS SETS (a rule returned twice, see "
+                                       "DESIGN.md section 6; not counted as a violation), e.g. " + sets_only[0][:600]) if sets_only else "")})
+    fs["wall_s"] += time.time() - t0
+
+
+_MODEL_LIMITS = (
+    "What is PROVED is a statement about the abstract Prog model (lean/UF/Model/Prog.lean): for every schedule of "
+    "its atomic actions (any number of threads, any length) every finished query returns the stateless answer. "
+    "Outside the model and NOT proved: the Go memory model and scheduler, sync.Mutex/RWMutex, sync.Pool "
+    "(syncutil.Pool), os.File and regexp internals, and that one critical section of the code is one atomic action "
+    "(that granularity is an assumption, compared on every run with the lock table extracted from the source by "
+    "go/ast). The -race run and the goroutine partitions are exploration of the schedules the Go scheduler "
+    "happened to produce, not proof."
+)
+
+PROPS = {
+    "C13": {
+        "families": [fam("c13hist", 5000, 50000, seeds=4)],
+        "rule": "one `assert` per history of 10..500 mixed DNS/web/MatchAll/cosmetic queries on engines sharing one storage "
+                "(each answer vs a fresh engine, derived-result calls on old results, re-serialisation at the end) plus one "
+                "`c13model` line replaying the abstract trace (candidate indices observed on fresh spying engines, match bits, "
+                "observed answers and RuleStorage.GetCacheSize()) on the Lean Prog model; distinct by hash of the line; "
+                "non-trivial = not the empty answer",
+        "explanation": "Theorems are about the Prog/Pool models; the tie to the Go code is the generated field facts "
+                       "(Facts.requestFields = Facts.requestAssignedOnRefill = the model's field list), and the differential "
+                       "histories. sync.Pool, regexp and the Go runtime are modelled, not verified.",
+    },
+    "C14": {
+        "families": [fam("c14sc", 40, 400, seeds=4)],
+        "extra": c14_extra,
+        "level": "proof",
+        "rule": "c14sc: one `assert` per round (a request multiset partitioned over 2..32 goroutines, cold then warm cache, yields "
+                "at the four hook points, every answer vs the sequential one) in the ordinary harness; c14race: the same rounds in the "
+                "harness built with -race; a race report or an answer that differs from the sequential one is a violation",
+        "explanation": _MODEL_LIMITS,
+        "assumptions": [
+            "PARTIAL BY NATURE: " + _MODEL_LIMITS,
+        ],
+    },
+    "C19": {
+        "families": [fam("c19fault", 200, 3000, seeds=4)],
+        "rule": "one `assert` per scenario (File-backed lists on real temp files, history of 8..40 queries, fault = storage.Close() "
+                "or a closed descriptor before query k; all k when the budget allows): no panic, returned rules truly match "
+                "(linear-scan oracle) and are a subset of the fault-free retrieval, rules retrieved before k still served; plus one "
+                "`c19model` line: the Prog model with the lists closed at the same point must predict the degraded answers and "
+                "cache sizes exactly",
+        "explanation": "Theorems are about the Prog model with the fault action `close listId`; os.File behaviour after Close "
+                       "(every Seek/Read fails) is an assumption checked only by the differential runs.",
+    },
+}
